@@ -98,11 +98,18 @@ Init ==
    \* scope focus: requirements that list scopes; the callback decides per (scheme, scopes)
    \/ \E os \in ScopeSecs, ds \in {<<>>, << <<"A+w">> >>, << <<"A">> >>}, acc \in SUBSET {"A", "A+r", "A+w", "B"}, mu \in BOOLEAN :
         case = Mk(os, ds, acc, NoParams, "none", mu, FALSE, FALSE, FALSE)
+   \* no authentication callback (Options.AuthenticationFunc nil, or no Options value at all): no scheme can be accepted,
+   \* so the security part passes exactly when the list in effect is empty or has an empty requirement
+   \/ \E os \in {Absent, L(<<>>), L(<< <<>> >>), L(<< <<"A">> >>), L(<< <<"A">>, <<>> >>), L(<< <<>>, <<"A">> >>), L(<< <<"A">>, <<"B">> >>)},
+         ds \in {<<>>, << <<"A">> >>, << <<>> >>, << <<"B">>, <<>> >>}, o \in {"nil", "nocallback"}, mu \in BOOLEAN,
+         cfg \in {NoParams, OneFailingQuery} :
+        /\ (o = "nil" => ~mu)
+        /\ case = [Mk(os, ds, {}, cfg, "none", mu, FALSE, FALSE, FALSE) EXCEPT !.opts = o]
    \* options the statement does not mention (SkipSettingDefaults, ExcludeReadOnlyValidations) and no Options value at all
    \/ \E o \in {"skipdefaults", "exclreadonly", "nil"}, k1 \in [p : {"none"}, o : {"int", "reqint", "reqintd"}, t : {"1", "x", "-"}],
          k2 \in {Inactive, [p |-> "strx", o |-> "none", t |-> "1"]}, bd \in BDecls, body \in {"none", "pass", "fail"},
          os \in {Absent, L(<<>>), L(<< <<"A">> >>)}, mu \in BOOLEAN, xb \in BOOLEAN :
-        /\ (o = "nil" => os # L(<< <<"A">> >>) /\ ~mu /\ ~xb)
+        /\ (o = "nil" => ~mu /\ ~xb)
         /\ (Tier = "quick" => ~xb /\ bd # "optional")
         /\ case = [MkB(os, <<>>, {}, <<k1, k2, Inactive>>, bd, body, mu, xb, FALSE, FALSE, FALSE) EXCEPT !.opts = o]
    \* body focus: what the operation declares x what the request carries x exclusion x security outcome x multi-error
